@@ -198,4 +198,218 @@ def unlockAll (t : Table) (o : Nat) (ks : List String) : Table :=
 def isLockedAll (t : Table) (now : Nat) (o : Nat) (ks : List String) : Bool :=
   ks.all (fun k => t.heldBy now k o)
 
+/-! ## Part 3: the item lock records of one transaction (Model R-items)
+
+Transcription of `common/itemactiontracker.go: lock / checkTrackedItems / unlock`, the re-registration done by
+`common/managebtree.go: refetchAndMergeClosure` (the replay creates every tracker entry anew — new `LockID`,
+`isLockOwner = false` — and `keepLockIdentity` puts the old `(LockID, isLockOwner)` back), and the places where
+`phase1Commit`, the in-loop `rollback(ctx,false)`, the final `rollback(ctx,true)` and `phase2Commit` call them.
+
+* the L2 cache's lock records are a map item ↦ `(LockID, Action)` (`Nat → Option …`: one record per key, as in
+  the cache); other transactions act on it through `EnvOp`s, and can only write records under THEIR LockIDs;
+* the tracker is a list (the Go map's iteration order is unspecified: the theorems hold for every order);
+* `lock` is the code's three passes: read all (first incompatible record ⇒ conflict, nothing written), write the
+  records that were not there, read them again (first mismatch ⇒ error: the entries after it are written but
+  NOT marked as owned). What other transactions (or a failing read) do between the write and the re-read is the
+  `Window` of the call.
+-/
+
+inductive Act | get | add | update | remove deriving Repr, DecidableEq
+
+/-- A `LockID`. `own = true`: generated by the transaction under test (`sop.NewUUID()` in its tracker). -/
+structure Lid where
+  own : Bool
+  n : Nat
+  deriving Repr, DecidableEq
+
+/-- One tracker entry (`cacheItem`): item, lock record identity, action, `isLockOwner`. -/
+structure Trk where
+  item : Nat
+  lid : Lid
+  act : Act
+  owner : Bool
+  deriving Repr, DecidableEq
+
+/-- The lock records in the L2 cache: item ↦ (LockID, Action). -/
+abbrev RCache := Nat → Option (Lid × Act)
+
+def RCache.put (c : RCache) (i : Nat) (v : Lid × Act) : RCache := fun j => if j = i then some v else c j
+def RCache.del (c : RCache) (i : Nat) : RCache := fun j => if j = i then none else c j
+
+/-- What another transaction does to the records: write one under its own LockID, or delete one. -/
+inductive EnvOp
+  | put (item n : Nat) (act : Act)
+  | del (item : Nat)
+  deriving Repr, DecidableEq
+
+def envApply (c : RCache) : EnvOp → RCache
+  | .put i n a => c.put i (⟨false, n⟩, a)
+  | .del i => c.del i
+
+/-- `readItem.Action == getAction && cachedItem.Action == getAction` -/
+def compat (ra : Act) (t : Trk) : Bool := ra == .get && t.act == .get
+
+/-- First pass of `lock`: the entries whose record must be written; `none` = "call detected conflict". -/
+def scanA (c : RCache) : List Trk → Option (List Trk)
+  | [] => some []
+  | t :: ts =>
+    if t.act = .add then scanA c ts else
+    match c t.item with
+    | some (l, a) => if l = t.lid then scanA c ts else if compat a t then scanA c ts else none
+    | none => (scanA c ts).map (t :: ·)
+
+def writeRecs (c : RCache) (ts : List Trk) : RCache := ts.foldl (fun c t => c.put t.item (t.lid, t.act)) c
+
+/-- Third pass of `lock` over the written entries: (all verified, items marked `isLockOwner = true`).
+It returns at the first entry whose record is gone or carries another LockID (unless get/get). -/
+def verifyC (c : RCache) : List Trk → Bool × List Nat
+  | [] => (true, [])
+  | t :: ts =>
+    match c t.item with
+    | none => (false, [])
+    | some (l, a) =>
+      if l = t.lid then ((verifyC c ts).1, t.item :: (verifyC c ts).2)
+      else if compat a t then verifyC c ts else (false, [])
+
+def markOwners (m : List Nat) (trk : List Trk) : List Trk :=
+  trk.map fun t => if t.item ∈ m then { t with owner := true } else t
+
+/-- Between `SetStructs` and the verifying `GetStructs` of one `lock` call. -/
+structure Window where
+  ops : List EnvOp      -- other transactions' writes that land in between
+  readErr : Bool        -- the verifying read (or the write, after it took effect) returns an error
+  deriving Repr, DecidableEq
+
+def Window.none : Window := ⟨[], false⟩
+
+/-- `itemActionTracker.lock`: (ok, cache, tracker). -/
+def lockItems (c : RCache) (trk : List Trk) (w : Window) : Bool × RCache × List Trk :=
+  match scanA c trk with
+  | none => (false, c, trk)
+  | some toSet =>
+    let c1 := writeRecs c toSet
+    if toSet.isEmpty then (true, c1, trk) else
+    let c2 := w.ops.foldl envApply c1
+    if w.readErr then (false, c2, trk) else
+    ((verifyC c2 toSet).1, c2, markOwners (verifyC c2 toSet).2 trk)
+
+/-- `itemActionTracker.unlock`: delete the records of the entries the tracker believes it owns. -/
+def unlockItems (c : RCache) (trk : List Trk) : RCache :=
+  fun j => if trk.any (fun t => t.owner && t.act != .add && t.item == j) then none else c j
+
+def checkOne (c : RCache) (t : Trk) : Trk × Bool :=
+  if t.act = .add then (t, true) else
+  match c t.item with
+  | none => ({ t with owner := false }, true)
+  | some (l, a) =>
+    if l = t.lid then ({ t with owner := true }, true)
+    else if compat a t then (t, true) else ({ t with owner := false }, false)
+
+/-- `itemActionTracker.checkTrackedItems`: refreshes `isLockOwner` of every entry; (tracker, no conflict). -/
+def checkItems (c : RCache) (trk : List Trk) : List Trk × Bool :=
+  (trk.map fun t => (checkOne c t).1, trk.all fun t => (checkOne c t).2)
+
+/-- The replay of `refetchAndMergeClosure`: an `add` entry is put back as it was; every other entry is created
+anew by the B-tree calls (fresh LockID, not owner) and then gets its old identity back when
+`keepLockIdentity` is called for its action (`keep`). On the tree under test `keep` is `fun _ => true`. -/
+def reReg (keep : Act → Bool) : Nat → List Trk → List Trk × Nat
+  | n, [] => ([], n)
+  | n, t :: ts =>
+    ((if t.act = .add ∨ keep t.act = true then t else { t with lid := ⟨true, n⟩, owner := false }) :: (reReg keep (n + 1) ts).1,
+     (reReg keep (n + 1) ts).2)
+
+def keepAll : Act → Bool := fun _ => true
+
+structure ISt where
+  cache : RCache
+  trk : List Trk
+  next : Nat          -- next fresh LockID number
+  logged : Bool       -- t.logger.committedState ≥ lockTrackedItems
+  ended : Bool        -- Commit has returned
+
+/-- The final `rollback(ctx, true)` of `Phase1Commit` / `Phase2Commit`. -/
+def rollbackEnd (i : ISt) : ISt :=
+  { i with cache := if i.logged then unlockItems i.cache i.trk else i.cache, ended := true }
+
+structure RSt where
+  l : St
+  i : ISt
+
+/-- How the part after the loop ends: everything fine; a call before `checkTrackedItems` fails; a call after it
+(phase 2) fails. -/
+inductive TailR | ok | failEarly | failLate deriving Repr, DecidableEq
+
+inductive REv
+  | env (op : EnvOp)                              -- another transaction acts on the lock records
+  | ev (e : Ev) (w : Window)                      -- a decision of the loop; `w` belongs to the lockTrackedItems after a refetch
+  | refetchFail (dt : Nat) (replayed : List Nat)  -- refetchAndMerge returned an error after re-registering these items
+  | tail (r : TailR)                              -- commitStores … checkTrackedItems, phase 2
+
+/-- `log(lockTrackedItems); lockTrackedItems` before the loop, then the loop head. -/
+def initR (c : Cfg) (start : Nat) (hasKeys : Bool) (trk : List Trk) (cache : RCache) (next : Nat) (w : Window) : RSt :=
+  let r := lockItems cache trk w
+  let i : ISt := { cache := r.2.1, trk := r.2.2, next := next, logged := true, ended := false }
+  if r.1 then { l := init c start hasKeys, i := i }
+  else { l := { init c start hasKeys with pc := .done .error, iter := 0 }, i := rollbackEnd i }
+
+def isDoneOther : Pc → Bool
+  | .done .success => false
+  | .done _ => true
+  | _ => false
+
+def Ev.refetchDt : Ev → Option Nat
+  | .refetch dt _ => some dt
+  | _ => none
+
+def pcDone : Pc → Bool
+  | .done _ => true
+  | _ => false
+
+/-- `rollback(ctx,false)` inside the loop: unlockTrackedItems, then `committedState := unknown`. The tracker's
+`isLockOwner` flags are NOT reset. -/
+def inLoopRollback (i : ISt) : ISt := { i with cache := unlockItems i.cache i.trk, logged := false }
+
+/-- refetchAndMerge (replay) + `log(lockTrackedItems)` + `lockTrackedItems`. -/
+def refetchStep (keep : Act → Bool) (c : Cfg) (s : RSt) (e : Ev) (dt : Nat) (w : Window) : RSt :=
+  let rr := reReg keep s.i.next s.i.trk
+  let r := lockItems s.i.cache rr.1 w
+  let i' : ISt := { s.i with cache := r.2.1, trk := r.2.2, next := rr.2, logged := true }
+  if r.1 then { l := step c s.l e, i := i' }
+  else { l := { s.l with clock := s.l.clock + dt, pc := .done .error }, i := rollbackEnd i' }
+
+/-- every other decision of the loop: Part 1's `step`; an unsuccessful round below the cap runs the in-loop
+rollback; leaving the loop with anything but success runs the final rollback. -/
+def plainStep (c : Cfg) (s : RSt) (e : Ev) : RSt :=
+  let l' := step c s.l e
+  let i1 : ISt := if l'.retry ≠ s.l.retry ∧ l'.pc ≠ .done .retryCap then inLoopRollback s.i else s.i
+  { l := l', i := if isDoneOther l'.pc then rollbackEnd i1 else i1 }
+
+def tailStep (s : RSt) : TailR → RSt
+  | .failEarly => { s with i := rollbackEnd s.i }
+  | .failLate => { s with i := rollbackEnd { s.i with trk := (checkItems s.i.cache s.i.trk).1 } }
+  | .ok =>
+    let ck := checkItems s.i.cache s.i.trk
+    let i' : ISt := { s.i with trk := ck.1 }
+    if ck.2 then { s with i := { i' with cache := unlockItems i'.cache i'.trk, ended := true } }  -- phase 2
+    else { s with i := rollbackEnd i' }
+
+def stepR (keep : Act → Bool) (c : Cfg) (s : RSt) : REv → RSt
+  | .env op => { s with i := { s.i with cache := envApply s.i.cache op } }
+  | .ev e w =>
+    if s.i.ended || pcDone s.l.pc then s else
+    match (if s.l.pc = .wantRefetch then e.refetchDt else none) with
+    | some dt => refetchStep keep c s e dt w
+    | none => plainStep c s e
+  | .refetchFail dt replayed =>
+    if s.i.ended || !(s.l.pc == .wantRefetch) then s else
+    let rr := reReg keep s.i.next (s.i.trk.filter fun t => replayed.contains t.item)
+    { l := { s.l with clock := s.l.clock + dt, pc := .done .error },
+      i := rollbackEnd { s.i with trk := rr.1, next := rr.2 } }
+  | .tail r =>
+    if s.i.ended || !(s.l.pc == .done .success) then s else tailStep s r
+
+def runR (keep : Act → Bool) (c : Cfg) (s : RSt) : List REv → RSt
+  | [] => s
+  | e :: es => runR keep c (stepR keep c s e) es
+
 end Sop.Retry
